@@ -65,6 +65,7 @@ func (e *Engine) verifyFunc(fi *FuncInfo) (rep *FuncReport) {
 	info := fi.Pkg.TypesInfo
 	sig := fi.Obj.Type().(*types.Signature)
 	e.usedNilChan = false
+	e.loopDepth = 0
 	e.arrayMode = c.Attrs["streams"] == "arrays"
 	if e.arrayMode {
 		e.notes["array mode: stream cursors kept in arrays indexed by stream id (symbolic number of channels)"] = true
@@ -178,10 +179,90 @@ func (e *Engine) verifyFunc(fi *FuncInfo) (rep *FuncReport) {
 		e.checkExit(fi, o, sig)
 		e.obls = append(e.obls, &Obligation{Name: fmt.Sprintf("%s/cover/exit@%d", fi.Key, i+1), Func: fi.Key, Tags: rep.Tags, Hyps: append([]*Term(nil), o.st.pc...), Goal: tFalse, Kind: "cover", Where: c.Where})
 	}
+	// C09: instances hold configuration only - no write to the receiver, to anything reachable from it, or to
+	// package-level state; captured mutable state is confined to one process
+	if len(c.byKind("modifies", "")) == 0 {
+		frameFail := 0
+		for _, o := range e.obls {
+			if strings.HasPrefix(o.Kind, "frame/") && o.Result == "static-fail" {
+				frameFail++
+				o.Tags = append(append([]string(nil), o.Tags...), "C09")
+			}
+		}
+		conf, detail := e.confinement(fi)
+		e.obls = append(e.obls, &Obligation{Name: fi.Key + "/frame/nothing-but-locals-written", Func: fi.Key, Tags: []string{"C09"}, Kind: "frame", Static: true, Where: c.Where,
+			Result: map[bool]string{true: "static-ok", false: "static-fail"}[frameFail == 0], Goal: mkBool(frameFail == 0), Detail: fmt.Sprintf("%d frame violations", frameFail)})
+		e.obls = append(e.obls, &Obligation{Name: fi.Key + "/confinement/captured-state-in-one-process", Func: fi.Key, Tags: []string{"C09"}, Kind: "confinement", Static: true, Where: c.Where,
+			Result: map[bool]string{true: "static-ok", false: "static-fail"}[conf], Goal: mkBool(conf), Detail: detail})
+	}
 	rep.Status = "checked"
 	rep.Obls = e.obls
 	rep.Notes = sortedKeys(e.notes)
 	return rep
+}
+
+// every variable assigned inside a function literal (closure passed to a stage, goroutine body) is referenced by no
+// other literal and by the enclosing body only before the literal (initialisation)
+func (e *Engine) confinement(fi *FuncInfo) (bool, string) {
+	info := fi.Pkg.TypesInfo
+	for _, lit := range fi.Lits {
+		assigned := map[types.Object]bool{}
+		mark := func(l ast.Expr) {
+			for {
+				switch lx := ast.Unparen(l).(type) {
+				case *ast.IndexExpr:
+					l = lx.X
+					continue
+				case *ast.Ident:
+					if o, ok := info.ObjectOf(lx).(*types.Var); ok && (o.Pos() < lit.Pos() || o.Pos() > lit.End()) && o.Parent() != o.Pkg().Scope() {
+						assigned[o] = true
+					}
+				}
+				return
+			}
+		}
+		ast.Inspect(lit.Body, func(n ast.Node) bool {
+			switch x := n.(type) {
+			case *ast.AssignStmt:
+				for _, l := range x.Lhs {
+					mark(l)
+				}
+			case *ast.IncDecStmt:
+				mark(x.X)
+			}
+			return true
+		})
+		if len(assigned) == 0 {
+			continue
+		}
+		bad := ""
+		ast.Inspect(fi.Decl.Body, func(n ast.Node) bool {
+			id, ok := n.(*ast.Ident)
+			if !ok {
+				return true
+			}
+			o := info.ObjectOf(id)
+			if o == nil || !assigned[o] {
+				return true
+			}
+			if id.Pos() >= lit.Pos() && id.Pos() <= lit.End() {
+				return true // inside the owning literal
+			}
+			if id.Pos() > lit.End() {
+				bad = fmt.Sprintf("%s is written by a function literal and also used after it at %s", o.Name(), e.src(id))
+			}
+			for _, other := range fi.Lits {
+				if other != lit && id.Pos() >= other.Pos() && id.Pos() <= other.End() && !(lit.Pos() >= other.Pos() && lit.End() <= other.End()) {
+					bad = fmt.Sprintf("%s is written by one function literal and used by another at %s", o.Name(), e.src(id))
+				}
+			}
+			return true
+		})
+		if bad != "" {
+			return false, bad
+		}
+	}
+	return true, ""
 }
 
 func (e *Engine) paramValue(name string, t types.Type, st *State) Value {
